@@ -4,6 +4,7 @@ import Adc.Symmetry
 import Adc.Wick
 import Adc.Contraction
 import Adc.SpinSplit
+import Adc.Expand
 /- Line-protocol driver: one JSON request per line on stdin, one JSON answer per line on stdout. -/
 open Lean Adc Adc.Wire
 
@@ -118,6 +119,14 @@ def handle (j : Json) : P Json := do
     let σ ← pSub (← fld j "sigma")
     let cs ← pIdxs (← fld j "split")
     match spinRef σ cs e with
+    | none => pure (Json.mkObj [("ok", false)])
+    | some r => pure (Json.mkObj [("ok", true), ("e", jExpr r)])
+  | "expand" =>      -- C11: replace the k-th object (an intermediate tensor) by its definition
+    let t ← pTerm (← fld j "t")
+    let k ← (← fld j "k").getNat?
+    let d : ItmdDef := { head := ← pTensor (← fld j "head"), body := ← pExpr (← fld j "body") }
+    let σs ← (← arr (← fld j "sigmas")).toList.mapM pSub
+    match expandAt d σs t k with
     | none => pure (Json.mkObj [("ok", false)])
     | some r => pure (Json.mkObj [("ok", true), ("e", jExpr r)])
   | "ordersubs" =>   -- C08: order_substitutions
